@@ -204,6 +204,22 @@ class Body:
         self._reach_memo[key] = seen
         return seen
 
+    def reach(self, start, avoid_blocks=(), avoid_edges=()):
+        """Blocks reachable from start (inclusive) without entering avoid_blocks or taking avoid_edges."""
+        avoid_blocks = set(avoid_blocks)
+        avoid_edges = set(avoid_edges)
+        seen = set()
+        dq = deque([start])
+        while dq:
+            x = dq.popleft()
+            if x in seen or x in avoid_blocks:
+                continue
+            seen.add(x)
+            for s in self.succs(x):
+                if (x, s) not in avoid_edges and s not in seen:
+                    dq.append(s)
+        return seen
+
     def reachable_blocks(self):
         return self.reachable_from(0)
 
@@ -426,14 +442,18 @@ class Body:
                 return self.term_call(d[1])
         if not full and not partial:
             return ("undef", l)
-        # several definitions: a variable
+        # several definitions: a variable (alternatives via var_alts, so that terms stay finite)
+        return ("var", l)
+
+    def var_alts(self, l):
+        """Terms of all full definitions of a multiply-assigned local."""
         alts = []
-        for d in full:
+        for d in self.defs().get(l, []):
             if d[0] == "assign":
                 alts.append(self.term_rvalue(d[3], (d[1], d[2])))
-            else:
+            elif d[0] == "call":
                 alts.append(self.term_call(d[1]))
-        return ("var", l, tuple(alts), len(partial))
+        return alts
 
     def term_call(self, bi):
         t = self.blocks[bi]["term"]
@@ -489,6 +509,8 @@ class Body:
             return self.term_operand(rv["ops"][0])
         if k == "ref":
             inner = self.term_place(rv["pl"])
+            if inner[0] == "deref":
+                return inner[1]   # reborrow &*x == x
             return ("ref", inner)
         if k == "rawptr":
             return ("rawptr", self.term_place(rv["pl"]))
@@ -680,8 +702,11 @@ def peel(t, transparent=TRANSPARENT, refs=True):
         if t[0] == "call" and t[2] and any(is_call(t, p) for p in transparent):
             t = t[2][0]
             continue
-        if t[0] == "downcast" and is_call(peel_once(t[1]), "Try::branch"):
-            # (x? as Continue).0
+        if t[0] == "field" and t[1][0] == "downcast" and t[1][2] == "Continue" and is_call(peel_once(t[1][1]), "Try::branch"):
+            # (x? as Continue).0  is the Ok payload of x
+            t = ("okpayload", peel_once(t[1][1])[2][0])
+            continue
+        if t[0] == "okpayload":
             t = t[1]
             continue
         return t
@@ -693,19 +718,19 @@ def peel_once(t):
     return t
 
 
-def origins(t, transparent=TRANSPARENT):
+def origins(t, transparent=TRANSPARENT, body=None, _seen=frozenset()):
     """Set of leaf origins of a term after peeling: params, consts, calls (non transparent), fields..."""
     t = peel(t, transparent)
     if not isinstance(t, tuple) or not t:
         return {t}
     if t[0] == "var":
-        res = set()
-        for a in t[2]:
-            res |= origins(a, transparent)
-        res.add(("var", t[1]))
+        res = {t}
+        if body is not None and t not in _seen:
+            for a in body.var_alts(t[1]):
+                res |= origins(a, transparent, body, _seen | {t})
         return res
     if t[0] in ("field", "downcast", "index", "cindex"):
-        return {t} | origins(t[1], transparent)
+        return {t} | origins(t[1], transparent, body, _seen)
     return {t}
 
 
@@ -753,6 +778,8 @@ def show(t, depth=0):
         return t[2].split("::")[-1] + "{" + ", ".join(show(a, d) for a in t[3]) + "}"
     if k == "var":
         return "var_%d" % t[1]
+    if k == "okpayload":
+        return show(t[1], d) + "?"
     if k == "discr":
         return "discr(" + show(t[1], d) + ")"
     return k + "(" + ", ".join(show(a, d) if isinstance(a, tuple) else str(a) for a in t[1:]) + ")"
